@@ -24,7 +24,7 @@ def demo_place(wt, demo):
         d = os.path.join(wt, 'cmd/json-patch' if legacy else 'v5/cmd/json-patch')
         shutil.copy(demo, os.path.join(d, 'zz_seed_demo_test.go'))
         return d, 'go test -vet=off -count=1 -run ' + runpat + ' .', legacy
-    if pkg == 'json':
+    if pkg in ('json', 'json_test'):
         d = os.path.join(wt, 'v5/internal/json')
     elif pkg == 'main' and not demo.endswith('_test.go'):
         d = os.path.join(wt, 'v5/zzdemo' if not legacy else 'zzdemo')
